@@ -4,6 +4,7 @@ import (
 	"fmt"
 	"go/token"
 	"go/types"
+	"os"
 	"sort"
 	"strings"
 
@@ -42,6 +43,95 @@ func runC08(c *Ctx) {
 	c08Discard(c)
 	c08NoExit(c)
 	c08NoRecursion(c)
+	if c.Tier == "thorough" && bceFile != "" {
+		c08BCECrossCheck(c)
+	}
+}
+
+// c08BCECrossCheck: every bounds check the Go compiler could not eliminate (its own listing, produced by the check
+// script on a scratch copy of the current tree) that lies in a network-reachable function must coincide with an
+// obligation the prover evaluated: the inventory of panic obligations is complete with respect to the compiler's.
+func c08BCECrossCheck(c *Ctx) {
+	w := c.w
+	rule := "bce-coverage"
+	data, err := os.ReadFile(bceFile)
+	if err != nil {
+		c.undecided(rule, "listing", "-", "cannot read the compiler's bounds-check listing: "+err.Error())
+		return
+	}
+	have := map[string]bool{}
+	for _, o := range c.Obls {
+		if o.Rule == "panic-obligations" {
+			have[strings.TrimSuffix(o.Pos, "~")] = true
+		}
+	}
+	reach := w.networkReachable()
+	// function extents
+	type ext struct {
+		file       string
+		from, to   int
+		fn         *ssa.Function
+	}
+	var exts []ext
+	for _, fn := range w.All {
+		syn := fn.Syntax()
+		if syn == nil {
+			continue
+		}
+		p0, p1 := w.Fset.Position(syn.Pos()), w.Fset.Position(syn.End())
+		f := p0.Filename
+		if i := strings.LastIndex(f, "/"); i >= 0 {
+			f = f[i+1:]
+		}
+		exts = append(exts, ext{f, p0.Line, p1.Line, fn})
+	}
+	n, inReach, matched, viaCall := 0, 0, 0, 0
+	for _, line := range strings.Split(string(data), "\n") {
+		if !strings.Contains(line, "Found Is") {
+			continue
+		}
+		parts := strings.SplitN(strings.TrimPrefix(strings.TrimSpace(line), "./"), ":", 4)
+		if len(parts) < 4 {
+			continue
+		}
+		n++
+		file := parts[0]
+		var ln int
+		fmt.Sscanf(parts[1], "%d", &ln)
+		// innermost enclosing function
+		var best *ext
+		for i := range exts {
+			e := &exts[i]
+			if e.file == file && e.from <= ln && ln <= e.to {
+				if best == nil || (e.to-e.from) < (best.to-best.from) {
+					best = e
+				}
+			}
+		}
+		if best == nil || !reach[best.fn] {
+			continue
+		}
+		inReach++
+		pos := fmt.Sprintf("%s:%d", file, ln)
+		if have[pos] {
+			matched++
+			continue
+		}
+		// a check inside an inlined callee is reported at the call site: library code is outside the inventory
+		// (its preconditions are the library's), package functions have their own obligations
+		inlined := false
+		eachInstr(best.fn, func(in ssa.Instruction) {
+			if _, ok := in.(ssa.CallInstruction); ok && strings.TrimSuffix(w.ipos(in), "~") == pos {
+				inlined = true
+			}
+		})
+		if inlined {
+			viaCall++
+			continue
+		}
+		c.bad(rule, pos, pos, "the compiler keeps a bounds check at "+pos+" in network-reachable function "+w.fname(best.fn)+" that corresponds to no obligation of the prover's inventory: the panic-obligation population is incomplete", strings.TrimSpace(line))
+	}
+	c.check(n >= 40 && inReach >= 25, rule, "listing/size", "-", fmt.Sprintf("%d compiler bounds checks, %d in network-reachable functions: %d matched by prover obligations, %d inside inlined callees (reported at a call site)", n, inReach, matched, viaCall), fmt.Sprintf("the compiler listing is implausibly small (%d entries, %d in network-reachable code): the cross-check did not run properly", n, inReach))
 }
 
 // named assumptions: single constructs whose range is guaranteed by configuration, not by code
